@@ -130,7 +130,9 @@ fn exact_node(rep: &mut RangeReport, laid: &Laid, a: &ANode, e: &ENode, path: &s
     let mut starts = vec![(sp[e.first].0, sp[e.first].0)];
     if let Some(k) = e.anns_last {
         if e.role != Role::Arg {
-            starts.push((sp[k].1, sp[e.first].0));
+            // "optionally extended backwards over whitespace/comments that follow its annotations": any position
+            // between the trivia units of that gap or inside its whitespace, but never strictly inside a comment
+            starts.extend(trivia_boundaries(&laid.text, sp[k].1, sp[e.first].0));
         }
     }
     let mut ends = vec![sp[e.last].1];
@@ -172,4 +174,37 @@ pub fn check_tree_exact(rep: &mut RangeReport, laid: &Laid, a: &ast::Aidl, exp: 
     for (i, (ta, te)) in tops.iter().zip(exps.iter()).enumerate() {
         exact_node(rep, laid, ta, te, &format!("top[{i}]"));
     }
+}
+
+/// Positions of a trivia-only gap [a, b] that are not strictly inside a comment, as closed intervals.
+fn trivia_boundaries(text: &str, a: usize, b: usize) -> Vec<(usize, usize)> {
+    let gap = &text[a..b];
+    let mut out = Vec::new();
+    let mut i = 0usize;
+    let bytes = gap.as_bytes();
+    let mut ws_start = 0usize;
+    while i < gap.len() {
+        if gap[i..].starts_with("/*") {
+            out.push((a + ws_start, a + i));
+            let end = gap[i + 2..].find("*/").map(|k| i + 2 + k + 2).unwrap_or(gap.len());
+            i = end;
+            ws_start = i;
+        } else if gap[i..].starts_with("//") {
+            out.push((a + ws_start, a + i));
+            let mut j = i + 2;
+            while j < gap.len() && bytes[j] != b'\n' && bytes[j] != b'\r' {
+                j += 1;
+            }
+            // the comment token also swallows the line ends that follow it
+            while j < gap.len() && (bytes[j] == b'\n' || bytes[j] == b'\r') {
+                j += 1;
+            }
+            i = j;
+            ws_start = i;
+        } else {
+            i += gap[i..].chars().next().map_or(1, |c| c.len_utf8());
+        }
+    }
+    out.push((a + ws_start, b));
+    out
 }
